@@ -222,6 +222,20 @@ def resolve_tree(node, tree, ctx, to_basic=True):
     return out
 
 
+def weighted(*pairs):
+    """Weighted choice between strategies. (st.one_of flattens nested one_ofs, which silently turns
+    'one_of(base, base, extra)' into a uniform choice over all of base's branches plus one.)"""
+    total = sum(w for w, _ in pairs)
+
+    def pick(k):
+        for w, strat in pairs:
+            if k < w:
+                return strat
+            k -= w
+        raise AssertionError
+    return st.integers(0, total - 1).flatmap(pick)
+
+
 def op_strategy(spec, max_ops, routes=None):
     """Histories over the schema described by ``spec`` (operands are indices resolved modulo the state)."""
     return st.lists(single_op(spec), min_size=2, max_size=max_ops)
@@ -290,6 +304,11 @@ def single_op(spec):
             return D(base)
         sops = st.integers(0, len(slists) - 1).flatmap(sop)
         ops += [sops] * 4
+    if len(leaves) >= 2:
+        containers = [i for i, (p, n) in enumerate(leaves) if n["kind"] in ("list", "dict")]
+        pool = containers if len(containers) >= 2 else list(range(len(leaves)))
+        cp = D({"op": J("copy_from"), "leaf": st.sampled_from(pool), "src": st.sampled_from(pool), "how": st.sampled_from(["assign", "assign", "extend", "iadd", "update"])})
+        ops += [cp, cp, cp] if len(containers) >= 2 else [cp]
     dyn = [p for p, n in [((), spec)] + spec_containers(spec) if n.get("dynamic")]
     if dyn:
         ops.append(D({"op": J("dyn_set"), "d": st.integers(0, len(dyn) - 1), "key": st.sampled_from(["extra1", "extra2", "zz"]), "value": specs.junk()}))
@@ -320,6 +339,34 @@ def prepare(world, state, op):
     leaves = spec_leaves(world.spec)
     name = op["op"]
     try:
+        if name == "copy_from":
+            # the value currently held by one field is offered to another field (whole assignment or in-place merge)
+            path, node = leaves[op["leaf"] % len(leaves)]
+            spath, snode = leaves[op["src"] % len(leaves)]
+            if "fill" in op and spath != path:
+                try:  # first put something into the source field (kept only if the source accepts it)
+                    set_via(cfg, spath, specs.realize(op["fill"]), "setattr")
+                except Exception:
+                    pass
+            value = get_path(cfg, spath)
+            how = op["how"]
+            out = Outcome("ok", target=path, info={"node": node, "value": value, "how": "setattr", "copy": True, "inplace": how != "assign"})
+            if value is None or spath == path:
+                return Outcome("skipped")
+            if how == "assign":
+                set_via(cfg, path, value, "setattr")
+            else:
+                dst = get_path(cfg, path)
+                if isinstance(dst, list) and isinstance(value, (list, tuple)) and how in ("extend", "iadd"):
+                    if how == "extend":
+                        dst.extend(value)
+                    else:
+                        dst += value
+                elif isinstance(dst, dict) and isinstance(value, dict) and how == "update":
+                    dst.update(value)
+                else:
+                    return Outcome("skipped")
+            return out
         if name == "listop":
             tls = [(p, n) for p, n in leaves if n["kind"] == "list" and n.get("item")]
             path, empty = tls[op["tl"] % len(tls)][0], []
@@ -449,6 +496,34 @@ def apply_op(world, state, op):
             value = specs.realize(op["value"])
             out = Outcome("ok", target=path, info={"dynamic": True, "value": value})
             set_via(cfg, path, value, "setattr")
+            return out
+        if name == "copy_from":
+            # the value currently held by one field is offered to another field (whole assignment or in-place merge)
+            path, node = leaves[op["leaf"] % len(leaves)]
+            spath, snode = leaves[op["src"] % len(leaves)]
+            if "fill" in op and spath != path:
+                try:  # first put something into the source field (kept only if the source accepts it)
+                    set_via(cfg, spath, specs.realize(op["fill"]), "setattr")
+                except Exception:
+                    pass
+            value = get_path(cfg, spath)
+            how = op["how"]
+            out = Outcome("ok", target=path, info={"node": node, "value": value, "how": "setattr", "copy": True, "inplace": how != "assign"})
+            if value is None or spath == path:
+                return Outcome("skipped")
+            if how == "assign":
+                set_via(cfg, path, value, "setattr")
+            else:
+                dst = get_path(cfg, path)
+                if isinstance(dst, list) and isinstance(value, (list, tuple)) and how in ("extend", "iadd"):
+                    if how == "extend":
+                        dst.extend(value)
+                    else:
+                        dst += value
+                elif isinstance(dst, dict) and isinstance(value, dict) and how == "update":
+                    dst.update(value)
+                else:
+                    return Outcome("skipped")
             return out
         if name == "listop":
             tls = [(p, n) for p, n in leaves if n["kind"] == "list" and n.get("item")]
